@@ -15,6 +15,7 @@ package c07
 import (
 	"encoding/json"
 	"fmt"
+	"math"
 	"sort"
 	"strings"
 	"testing"
@@ -96,6 +97,7 @@ func check(run *stats.Run, f stats.Failer, c Case) verdict {
 	for _, a := range c.Args {
 		classify(a, e.classes)
 	}
+	intClasses(c.Args, e.classes)
 	law(e)
 	v := verdict{}
 	v.labels = append(v.labels, "law:"+c.Law, "via:"+c.Via)
@@ -113,6 +115,12 @@ func check(run *stats.Run, f stats.Failer, c Case) verdict {
 	if v.nontrivial {
 		v.labels = append(v.labels, "nt:"+c.Law)
 	}
+	// per-law counts of the two classes on which order and ring laws go wrong
+	for _, k := range []string{"diff-overflow", "extreme-int"} {
+		if e.classes[k] {
+			v.labels = append(v.labels, k+":"+c.Law)
+		}
+	}
 	return v
 }
 
@@ -123,21 +131,50 @@ var ntClasses = map[string]bool{
 	"boundary-int": true, "empty-struct": true, "nested": true, "dup-key": true, "multipart-name": true, "non-ascii": true,
 }
 
+// isBoundaryInt: within 2 of one of the boundary bases of the generator (0, +-1, the ends of int64,
+// +-2^62, +-200 years of nanoseconds, +-2^53, +-2^32, +-2^31, +-floor(sqrt(2^63))).
 func isBoundaryInt(x int64) bool {
-	if x >= -1 && x <= 1 {
-		return true
-	}
-	ux := uint64(x)
-	if x < 0 {
-		ux = uint64(-x) // MinInt64 maps to 1<<63
-	}
-	for _, k := range []uint{31, 32, 53, 62, 63} {
-		b := uint64(1) << k
-		if ux+2 >= b && ux <= b+2 {
+	for _, b := range boundaryBases {
+		lo, hi := b-2, b+2
+		if b < math.MinInt64+2 {
+			lo = math.MinInt64
+		}
+		if b > math.MaxInt64-2 {
+			hi = math.MaxInt64
+		}
+		if x >= lo && x <= hi {
 			return true
 		}
 	}
-	return ux+2 >= 3037000500 && ux <= 3037000500+2 // floor(sqrt(2^63)): squares start to overflow
+	return false
+}
+
+// subOverflows tells whether x - y does not fit int64.
+func subOverflows(x, y int64) bool {
+	d := x - y
+	return (x >= y) != (d >= 0)
+}
+
+// intClasses records, for an all-integer argument tuple (numbers, times or durations), the classes
+// that matter for order and ring laws: an operand at an end of int64 and a pair whose difference
+// overflows (there "sign of x - y" and "x < y" disagree).
+func intClasses(args []val.V, cl map[string]bool) {
+	for _, a := range args {
+		if a.T != val.Num && a.T != val.Time && a.T != val.Dur {
+			return
+		}
+	}
+	for i, a := range args {
+		x := a.Int()
+		if x <= math.MinInt64+2 || x >= math.MaxInt64-2 {
+			cl["extreme-int"] = true
+		}
+		for _, b := range args[i+1:] {
+			if subOverflows(x, b.Int()) || subOverflows(b.Int(), x) {
+				cl["diff-overflow"] = true
+			}
+		}
+	}
 }
 
 // classify records the classes of one argument value.
